@@ -98,7 +98,14 @@ func c13Build(seed int64) *ir.Module {
 			last = a
 		}
 		ld := entry.NewLoad(i32, g0)
-		sum := entry.NewAdd(last, ld)
+		// an alloca whose address space is set after construction (the only way
+		// the API offers): its cached pointer type is recomputed on first use
+		al := entry.NewAlloca(i32)
+		al.AddrSpace = 5
+		cast := entry.NewAddrSpaceCast(al, types.NewPointer(i32)) // (a constructor that does not ask for the operand's type)
+		entry.NewStore(ld, cast)
+		ld2 := entry.NewLoad(i32, cast)
+		sum := entry.NewAdd(last, ld2)
 		next := f.NewBlock("")
 		entry.NewBr(next)
 		ph := next.NewPhi(ir.NewIncoming(sum, entry))
